@@ -120,7 +120,7 @@ func c08(p *core.Program, r *core.Report) {
 		case "Set", "SetCoords", "Clone", "Swap":
 			return // caller-supplied values, copies: not folds
 		}
-		polarity(p, r, r2, pkg, fd, core.ObjName(obj)[len("geom."):])
+		polarity(p, r, r2, pkg, fd, strings.Replace(core.ObjName(obj), "geom.", "", 1))
 	})
 
 	// ---- rule 3: Z with Z, M with M
